@@ -1,4 +1,5 @@
 import Urandom.Lemmas.BlockSim
+import Urandom.Lemmas.BlockWindow
 import Urandom.Props.C02
 /-
 C03 - The CSPRNG never hands out the same keystream bytes twice.
@@ -218,6 +219,63 @@ theorem split_disjoint (S C : Nat) (buf : Nat → Pos) (before opsChild opsParen
   intro e
   rw [e] at hp_le
   omega
+
+
+/-! ### actual (mod 2^64) coordinates -/
+
+/-- the coordinates the cipher actually sees: stream id and block counter reduced modulo 2^64 -/
+def actual (p : Pos) : Nat × Nat × Nat := (p.1 % 2 ^ 64, p.2.1 % 2 ^ 64, p.2.2)
+
+theorem mod_inj_of_window (a b lo : Nat) (ha : lo ≤ a) (hb : lo ≤ b) (ha' : a < lo + 2 ^ 64) (hb' : b < lo + 2 ^ 64)
+    (h : a % 2 ^ 64 = b % 2 ^ 64) : a = b := by
+  have e1 := Nat.div_add_mod a (2 ^ 64)
+  have e2 := Nat.div_add_mod b (2 ^ 64)
+  generalize a / 2 ^ 64 = qa at e1
+  generalize b / 2 ^ 64 = qb at e2
+  generalize (2 : Nat) ^ 64 = M at *
+  -- a and b differ by a multiple of M and both lie in a window of width M
+  have hq : qa = qb := by
+    rcases Nat.lt_trichotomy qa qb with hl | hl | hl
+    · have : M * (qa + 1) ≤ M * qb := Nat.mul_le_mul_left _ hl
+      rw [Nat.mul_add] at this; omega
+    · exact hl
+    · have : M * (qb + 1) ≤ M * qa := Nat.mul_le_mul_left _ hl
+      rw [Nat.mul_add] at this; omega
+  subst hq
+  omega
+
+/-- **No keystream position of the real cipher is used twice** as long as the generator has made
+fewer than `2^64` jumps and consumed at most `2^64` blocks since it was created: the actual
+`(stream id, block counter, byte offset)` triples - reduced modulo 2^64, as the hardware sees them -
+of all issued bytes are pairwise distinct.  (Beyond that bound the 64-bit counters wrap and positions
+necessarily repeat: the hypothesis is exactly the capacity of the cipher's position space.) -/
+theorem no_reuse_actual (S C : Nat) (buf : Nat → Pos) (ops : List Op)
+    (hS : (run posCore (Block.new (S, C) (buf 0)) ops).2.core.1 < S + 2 ^ 64)
+    (hC : (run posCore (Block.new (S, C) (buf 0)) ops).2.core.2 ≤ C + 2 ^ 64) :
+    ((run posCore (Block.new (S, C) (buf 0)) ops).1.map actual).Nodup := by
+  have hnd := no_reuse S C buf ops
+  have hpast := issued_in_past S C buf ops
+  have hbox0 : Box S C (Block.new (S, C) (buf 0)) [] :=
+    ⟨⟨Nat.le_refl _, Nat.le_refl _⟩, fun h => by simp [Block.new] at h, fun _ h => by simp at h⟩
+  have hbox := (box_run ops hbox0).issued
+  simp only [List.nil_append] at hbox
+  rw [List.Nodup, List.pairwise_map]
+  refine List.Pairwise.imp_of_mem ?_ hnd
+  intro p q hp hq hne he
+  apply hne
+  obtain ⟨p1, p2, p3⟩ := hbox p hp
+  obtain ⟨q1, q2, q3⟩ := hbox q hq
+  have pp := hpast p hp
+  have pq := hpast q hq
+  simp only [actual, Prod.mk.injEq] at he
+  obtain ⟨e1, e2, e3⟩ := he
+  have hs : p.1 = q.1 := mod_inj_of_window p.1 q.1 S p1 q1
+    (by rcases pp with h | ⟨h, _⟩ <;> omega) (by rcases pq with h | ⟨h, _⟩ <;> omega) e1
+  have hc : p.2.1 = q.2.1 := mod_inj_of_window p.2.1 q.2.1 C p2 q2 (by omega) (by omega) e2
+  obtain ⟨a, b, c⟩ := p
+  obtain ⟨a', b', c'⟩ := q
+  simp only at hs hc e3
+  rw [hs, hc, e3]
 
 /-- the stronger reading ("the child may jump") is false by design: a child that jumps lands on
 its parent's stream id -/
